@@ -331,6 +331,9 @@ def run_shard(acc, shard, nshards, seed, tier):
                             max_data=1, warmup=(False,), structural=False, leverages=(2, 3, 5, 10), program=dict(busy=True, hold=True, cycle=True),
                             align_len=True)
 
+    spot2 = sessions.session(minutes=(1500, 1900) if tier == 'quick' else (1500, 5800), kinds=('spot',), tfs=('5m', '15m', '1m'), max_data=0, warmup=(False,),
+                             structural=False, min_symbols=2, program=dict(busy=True, resting=True, cycle=True), align_len=True)
+
     def chk_s(spec):
         vios, flags, r = session_case(spec)
         nt = bool(flags & {'sample-with-open-position', 'sample-with-resting-buy'})
@@ -339,6 +342,8 @@ def run_shard(acc, shard, nshards, seed, tier):
                     violations=vios, sub='multi-day-sessions',
                     sample=dict(cfg=spec['cfg'], routes=spec['routes'], minutes=spec['n'], fast=spec['fast'], daily_balance=r['final']['daily_balance'] if r['final'] else None) if nt else None)
     runner.hyp_search(acc, sess, chk_s, 2 if tier == 'quick' else 200, seed + 5, tier, known=known, shrink_calls=4 if tier == 'quick' else 40, max_shrink_sigs=1,
+                      describe=lambda spec: dict(kind='session', spec=spec))
+    runner.hyp_search(acc, spot2, chk_s, 2 if tier == 'quick' else 200, seed + 7, tier, known=known, shrink_calls=4 if tier == 'quick' else 40, max_shrink_sigs=1,
                       describe=lambda spec: dict(kind='session', spec=spec))
     runner.hyp_search(acc, hold, chk_s, 2 if tier == 'quick' else 200, seed + 6, tier, known=known, shrink_calls=4 if tier == 'quick' else 40, max_shrink_sigs=1,
                       describe=lambda spec: dict(kind='session', spec=spec))
